@@ -69,8 +69,14 @@ def chain_of(e):
     return e, list(reversed(ms))
 
 
+NEEDS_FLOW = True
+
+
 def run(ctx, rep):
     sh = ctx.shape
+    from . import indexorder
+    rep.rule("R01-REMOVEORDER", "code generator: elements are removed from a Vec at recorded positions only from the highest position down", floor=1)
+    rep.guarded("R01-REMOVEORDER", lambda: indexorder.rule(sh, ctx.flow, rep, "R01-REMOVEORDER", lambda rel: rel.startswith("crates/aiken-lang/src/gen_uplc"), 1))
     rep.rule("R01-OPS", "operator lowering table = specification table (builtin, operand order, laziness) for 11 non-equality operators", floor=11)
     rep.rule("R01-LAZY", "no lazily lowered operator is in the may-swap-operands set; every other member lowers to a commutative builtin", floor=5)
     rep.rule("R01-KINDS", "the type checker demands the operand kind the generated builtin consumes", floor=11)
@@ -82,6 +88,10 @@ def run(ctx, rep):
     rep.guarded("R01-KINDS", lambda: r_kinds(sh, rep))
     rep.guarded("R01-CAST", lambda: cast_rules.rule_cast(sh, rep, "R01-CAST"))
     rep.guarded("R01-AIR", lambda: r_air(sh, rep))
+    rep.rule("R01-STATIC", "a recursive function's parameter is hoisted as static only when every self-call passes that very parameter at its own position", floor=2)
+    rep.guarded("R01-STATIC", lambda: r_static(sh, rep))
+    rep.rule("R01-LISTTRIM", "list destructuring: a discard in front of an open tail still counts towards the length a failing `expect` demands (only the tail position is dropped because a tail is present)", floor=2)
+    rep.guarded("R01-LISTTRIM", lambda: r_listtrim(sh, rep))
     rep.rule("R01-TYPEKEY", "decoder-cache keys (push_type_identity) start with a tag that is unique per type constructor", floor=4)
     rep.guarded("R01-TYPEKEY", lambda: r_typekey(sh, rep))
 
@@ -251,3 +261,76 @@ def r_typekey(sh, rep):
         if v in tags:
             clash = sorted(w for w in tags if w != v and tags[w] == tags[v])
             rep.check(not clash, "R01-TYPEKEY", "push_type_identity#%s#tag-unique" % v, sh.loc(G, f), "Type::%s and Type::%s both start their decoder-cache key with \"%s\": a program that casts Data to both reuses one synthesised decoder for the other type and aborts on valid input (or accepts a wrong shape)" % (v, "/".join(clash), tags[v]), sample={"tag": tags[v]})
+
+
+# ---------------------------------------------------------------------------------------------------------
+# R01-STATIC: recursion lowering — which parameters may be bound once outside the recursion
+# ---------------------------------------------------------------------------------------------------------
+GBUILD = "crates/aiken-lang/src/gen_uplc/builder.rs"
+
+
+def r_static(sh, rep):
+    """modify_self_calls drops a `static` parameter from every self-call and binds it once above the recursion. That is the
+    source semantics only if each self-call passes, at that parameter's position, the parameter itself. The test lives in
+    identify_recursive_static_params: it walks (parameter, argument) pairs *by position* (zip of the parameter list with the
+    call's arguments) and keeps the parameter only when the argument is a variable whose name equals that parameter. A test
+    against the whole parameter list (any parameter's name) keeps `gcd(b, a % b)`'s first parameter static."""
+    fj = sh.file(GBUILD)
+    f = find_fn(fj, "identify_recursive_static_params")
+    rep.touched(GBUILD, "identify_recursive_static_params")
+    params = [i["pat"].get("name") for i in f["sig"]["inputs"] if isinstance(i.get("pat"), dict)]
+    loops = []
+    for n in walk(f["body"]):
+        if n["k"] == "For" and n["pat"]["k"] in ("PTuple", "Tuple") and len(n["pat"]["elems"]) == 2 and all(e["k"] == "Ident" for e in n["pat"]["elems"]):
+            src = sh.nsrc(GBUILD, n["e"])
+            if ".zip(" in src and any(re.search(r"\b%s\b" % re.escape(p), src) for p in params if p):
+                loops.append(n)
+    rep.check(len(loops) == 1, "R01-STATIC", "identify#positional-pairing", sh.loc(GBUILD, loops[0]) if loops else sh.loc(GBUILD, f), "identify_recursive_static_params must pair each parameter with the argument at the same position (one `for (param, arg) in params.iter().zip(args)` loop; found %d)" % len(loops), sample={"loops": len(loops)})
+    if len(loops) != 1:
+        return
+    lp = loops[0]
+    pv, av = [e["name"] for e in lp["pat"]["elems"]]
+    body = sh.nsrc(GBUILD, lp["body"])
+    # names bound by a pattern on AirTree::Var { name, .. } inside the loop
+    bound = set()
+    for n in walk(lp["body"]):
+        if n.get("k") == "PStruct" and last(n.get("p", "")) == "Var":
+            for fp in n.get("fields", []):
+                nm = fp.get("name") or ""
+                if nm == "name":
+                    sub = fp.get("pat") or {}
+                    bound.add(sub.get("name") or "name")
+    bound = bound or {"name"}
+    same = any(re.search(r"(?<![\w.])[&*]*%s(==|!=)[&*]*%s(?![\w.(])" % (a, b), body) for x in bound for a, b in ((re.escape(x), re.escape(pv)), (re.escape(pv), re.escape(x))))
+    rep.check(same, "R01-STATIC", "identify#argument-is-that-very-parameter", sh.loc(GBUILD, lp), "inside the positional loop the argument variable's name must be compared with the loop's own parameter `%s` (==/!=); no such comparison found: a parameter stays `static` although a self-call passes another parameter in its place, and the hoisted binding keeps the initial value for the whole recursion" % pv, sample={"param_binding": pv, "var_name_bindings": sorted(bound)})
+
+
+# ---------------------------------------------------------------------------------------------------------
+# R01-LISTTRIM: which trailing discards list_access_to_uplc may cut off
+# ---------------------------------------------------------------------------------------------------------
+def r_listtrim(sh, rep):
+    """`expect [a, _, _, ..] = xs` must abort on a list shorter than three: under an expect every named *or discarded*
+    element is an obligation on the length, only the open tail itself binds nothing. list_access_to_uplc trims trailing
+    items of the (reversed) name list with skip_while over with_position(): the tail sits at Position::First / Only, the
+    elements before it at Middle / Last. The arm(s) covering Middle or Last may drop a discard only when no expect is in
+    force (ExpectLevel::None); only the First / Only arm may also use `tail_present`."""
+    fj = sh.file(GBUILD)
+    f = find_fn(fj, "list_access_to_uplc")
+    rep.touched(GBUILD, "list_access_to_uplc")
+    sk = [n for n in walk(f["body"]) if n.get("k") == "MethodCall" and n["m"] == "skip_while" and n["args"] and n["args"][0].get("k") == "Closure"]
+    if len(sk) != 1:
+        raise AnchorMissing("one skip_while(closure) in list_access_to_uplc (found %d)" % len(sk))
+    rev = any(x.get("k") == "MethodCall" and x["m"] == "rev" for x in walk(sk[0]["recv"])) and any(x.get("k") == "MethodCall" and x["m"] == "with_position" for x in walk(sk[0]["recv"]))
+    rep.check(rev, "R01-LISTTRIM", "trim#reversed-with-position", sh.loc(GBUILD, sk[0]), "the trimming walks the names reversed with positions (tail first); the arm table below is read under that assumption")
+    ms = list(matches_in(sk[0]["args"][0]["body"]))
+    if not ms:
+        raise AnchorMissing("match over Position in the skip_while closure of list_access_to_uplc")
+    bad = []
+    seen = set()
+    for arm in ms[0]["arms"]:
+        vs = {last(pat_head(a) or "_") for a in pat_alts(arm["pat"])}
+        seen |= vs
+        src = sh.nsrc(GBUILD, arm["body"]) + (sh.nsrc(GBUILD, arm["guard"]) if arm.get("guard") else "")
+        if vs & {"Middle", "Last", "_"} and "tail_present" in src:
+            bad.append(sorted(vs))
+    rep.check(not bad and {"First", "Only"} <= seen | ({"First", "Only"} if "_" in seen else set()), "R01-LISTTRIM", "trim#only-the-tail-position-drops-on-tail_present", sh.loc(GBUILD, ms[0]), "the arm covering %s lets `tail_present` drop a discard that is not the tail itself: `expect [a, _, _, ..] = xs` then accepts lists that are too short" % bad, sample={"arms": len(ms[0]["arms"])})
